@@ -39,6 +39,35 @@ var family = map[string]any{
 	"A.V":  enctypes.V{P: &enctypes2.T{Y: "y", Flag: true}, N: 2},
 	"A.V1": enctypes.V1{P: &enctypes.T{X: 4, Name: "t"}, N: 3},
 	"A.W":  enctypes.W{I: &enctypes.T{X: 4, Name: "t"}, N: 2},
+	// the graph family: embedding cycles, mutually recursive members, embedded parts that are targets too, a same-named
+	// embedded type, anonymous types that contain others. Every value sets every member its type offers (the members
+	// that Go's shadowing rule hides cannot be carried by JSON and stay zero).
+	"GA":   enctypes.GA{GB: &enctypes.GB{B1: 5, B2: "b"}, A1: 1, A2: "a"},
+	"GB":   enctypes.GB{GA: &enctypes.GA{A1: 7, A2: "x"}, B1: 2, B2: "y"},
+	"HA":   enctypes.HA{HB: &enctypes.HB{HC: &enctypes.HC{Hc: 3}, Hb: 2}, Ha: 1},
+	"HB":   enctypes.HB{HC: &enctypes.HC{HA: &enctypes.HA{Ha: 4}, Hc: 5}, Hb: 6},
+	"HC":   enctypes.HC{HA: &enctypes.HA{HB: &enctypes.HB{Hb: 7}, Ha: 8}, Hc: 9},
+	"MA":   enctypes.MA{Bs: []*enctypes.MB{{As: map[string]*enctypes.MA{"k": {N: 3}}, S: "s"}, {S: "t"}}, N: 1},
+	"MB":   enctypes.MB{As: map[string]*enctypes.MA{"a": {Bs: []*enctypes.MB{{S: "v"}}, N: 2}, "b": {N: 4}}, S: "u"},
+	"EO":   enctypes.EO{EI: enctypes.EI{I1: 1, I2: "i"}, O: 2},
+	"EP":   enctypes.EP{EI: &enctypes.EI{I1: 3, I2: "j"}, P: 4},
+	"A.EI": enctypes.EI{I1: 5, I2: "k"},
+	"EQ":   enctypes.EQ{EI: enctypes2.EI{J1: "j", J2: true}, Q: 6},
+	"B.EI": enctypes2.EI{J1: "m", J2: true},
+	"Anon3": struct {
+		In struct {
+			P int
+			Q string
+		}
+		Z int
+	}{struct {
+		P int
+		Q string
+	}{3, "w"}, 4},
+	"Anon4": struct {
+		*enctypes.GA
+		K int
+	}{&enctypes.GA{GB: &enctypes.GB{B1: 8, B2: "c"}, A1: 9, A2: "d"}, 3},
 }
 
 const createKey = "^"
@@ -59,6 +88,11 @@ type callRec struct {
 	RefM  string `json:"refm"`
 	Ref   tvNode `json:"ref"`
 	Orig  tvNode `json:"orig"`
+	// what the same entry point produces for this target in a fresh PROCESS in which it is the only target ever used
+	// (filled in by the parent from a child run on the one-element history)
+	SoloOk bool            `json:"solook"`
+	SoloM  string          `json:"solom"`
+	Solo   json.RawMessage `json:"solo,omitempty"`
 }
 
 type histEvent struct {
@@ -149,35 +183,80 @@ type histCase struct {
 	Mode string   `json:"mode,omitempty"`
 }
 
-// histCases: mode own replays every history in this process on one recomposer each; the default-recomposer modes run
-// every history in a fresh subprocess (alt.DefaultRecomposer is process wide).
+// histCases: every history runs in a fresh subprocess (alt.DefaultRecomposer and whatever else the library keeps per type
+// is process wide), mode own on one alt.Recomposer of its own, the other modes on alt.DefaultRecomposer. The reference
+// "solo" of a call is the result of the same entry point for the same target in a fresh process whose only target it is:
+// one child per (mode, type) on the one-element history.
 func histCases(args []string) {
 	fs := flag.NewFlagSet("hist", flag.ExitOnError)
 	mode := fs.String("mode", "own", "own | alt.Recompose | oj.Unmarshal | sen.Unmarshal")
 	fs.Parse(args)
 	lines := readLines(os.Stdin)
 	self, _ := os.Executable()
-	out := parallelMap(len(lines), func(i int) [][]byte {
-		var hc histCase
-		if err := json.Unmarshal(lines[i], &hc); err != nil {
-			panic(err)
-		}
-		m := *mode
-		if hc.Mode != "" {
-			m = hc.Mode
-		}
-		if m == "own" {
-			return [][]byte{mustJSON(runHistory(m, hc.H))}
-		}
+	child := func(m string, line []byte) []byte {
 		cmd := exec.Command(self, "histchild", m)
-		cmd.Stdin = bytes.NewReader(lines[i])
+		cmd.Stdin = bytes.NewReader(line)
 		var ob, eb bytes.Buffer
 		cmd.Stdout, cmd.Stderr = &ob, &eb
 		if err := cmd.Run(); err != nil {
 			fmt.Fprintln(os.Stderr, "histchild failed:", err, eb.String())
 			os.Exit(2)
 		}
-		return [][]byte{bytes.TrimSpace(ob.Bytes())}
+		return bytes.TrimSpace(ob.Bytes())
+	}
+	cases := make([]histCase, len(lines))
+	type mt struct{ m, t string }
+	var need []mt
+	have := map[mt]int{}
+	for i := range lines {
+		if err := json.Unmarshal(lines[i], &cases[i]); err != nil {
+			panic(err)
+		}
+		if cases[i].Mode == "" {
+			cases[i].Mode = *mode
+		}
+		for _, t := range cases[i].H {
+			k := mt{cases[i].Mode, t}
+			if _, ok := have[k]; !ok {
+				have[k] = len(need)
+				need = append(need, k)
+			}
+		}
+	}
+	solos := make([]callRec, len(need))
+	parallelMap(len(need), func(i int) [][]byte {
+		var ev struct {
+			Calls []struct {
+				Ok  bool            `json:"ok"`
+				M   string          `json:"m"`
+				Res json.RawMessage `json:"res"`
+			} `json:"calls"`
+		}
+		out := child(need[i].m, mustJSON(histCase{H: []string{need[i].t}, Mode: need[i].m}))
+		if err := json.Unmarshal(out, &ev); err != nil || len(ev.Calls) != 1 {
+			fmt.Fprintln(os.Stderr, "histchild (solo): unreadable output", err)
+			os.Exit(2)
+		}
+		solos[i] = callRec{SoloOk: ev.Calls[0].Ok, SoloM: ev.Calls[0].M, Solo: ev.Calls[0].Res}
+		return nil
+	})
+	out := parallelMap(len(lines), func(i int) [][]byte {
+		// the child's record is passed on as it is (raw), only the solo fields are set
+		var ev struct {
+			Ev    string                       `json:"ev"`
+			Mode  string                       `json:"mode"`
+			H     []string                     `json:"h"`
+			Calls []map[string]json.RawMessage `json:"calls"`
+		}
+		if err := json.Unmarshal(child(cases[i].Mode, lines[i]), &ev); err != nil || len(ev.Calls) != len(cases[i].H) {
+			fmt.Fprintln(os.Stderr, "histchild: unreadable output", err)
+			os.Exit(2)
+		}
+		for k := range ev.Calls {
+			so := solos[have[mt{cases[i].Mode, cases[i].H[k]}]]
+			ev.Calls[k]["solook"], ev.Calls[k]["solom"], ev.Calls[k]["solo"] = mustJSON(so.SoloOk), mustJSON(so.SoloM), so.Solo
+		}
+		return [][]byte{mustJSON(ev)}
 	})
 	w := bufio.NewWriterSize(os.Stdout, 1<<20)
 	for _, rs := range out {
